@@ -103,7 +103,7 @@ type pMethod struct {
 	ValueRecv  bool       `json:"valueRecv,omitempty"` // func (c AController) instead of (c *AController)
 	Ptag       string     `json:"ptag,omitempty"`      // which perturbation(s) produced this method (label only)
 	VerbProps  string     `json:"verbProps,omitempty"` // "key: value" text of a properties object on @Method (which takes none)
-	Grouped    bool       `json:"grouped,omitempty"`   // adjacent parameters of one type are written as an identifier list: (a, b, c string, d int)
+	Groups     []int      `json:"groups,omitempty"`    // identifier lists: [3,1] renders (a, b, c string, d int); empty = one name per declaration
 }
 
 type pField struct {
@@ -415,14 +415,29 @@ func writeProjectP(dir string, pc *pCase, repo string, hook bodyHook, prefix str
 			fb.body.WriteString(l + "\n")
 		}
 		params := []string{}
-		for i := 0; i < len(m.Sig); i++ {
-			p := m.Sig[i]
-			names := []string{p.Name}
-			for m.Grouped && i+1 < len(m.Sig) && m.Sig[i+1].Type == p.Type {
-				i++
-				names = append(names, m.Sig[i].Name)
+		groups := m.Groups
+		if len(groups) == 0 {
+			for range m.Sig {
+				groups = append(groups, 1)
 			}
-			params = append(params, strings.Join(names, ", ")+" "+localType(p.Type, c.Pkg, fb.imports, pkgs))
+		}
+		at := 0
+		for _, size := range groups {
+			if size < 1 || at+size > len(m.Sig) {
+				return fmt.Errorf("method %s: parameter groups %v do not fit its %d parameters", m.Name, m.Groups, len(m.Sig))
+			}
+			names := []string{}
+			for _, p := range m.Sig[at : at+size] {
+				if p.Type != m.Sig[at].Type {
+					return fmt.Errorf("method %s: parameters of one identifier list must share a type", m.Name)
+				}
+				names = append(names, p.Name)
+			}
+			params = append(params, strings.Join(names, ", ")+" "+localType(m.Sig[at].Type, c.Pkg, fb.imports, pkgs))
+			at += size
+		}
+		if at != len(m.Sig) {
+			return fmt.Errorf("method %s: parameter groups %v do not cover its %d parameters", m.Name, m.Groups, len(m.Sig))
 		}
 		retLocal := []string{}
 		for _, r := range m.Ret {
